@@ -296,6 +296,7 @@ pub fn crl_table(probes: Vec<Serial>) -> Table<Crl> {
                 c.cache_serials();
                 p3.iter().map(|s| if c.contains(*s) { '1' } else { '0' }).collect()
             }),
+            row("signature.encoders", |c: &Crl| sigalg(&c.signature())),
             row("authority_key_identifier", |c: &Crl| c.authority_key_identifier().to_string()),
             row("crl_number", |c: &Crl| serial(c.crl_number())),
             row("as_cert_list.encode_ref", |c: &Crl| der(c.as_cert_list().encode_ref())),
@@ -341,6 +342,39 @@ pub fn crl_table(probes: Vec<Serial>) -> Table<Crl> {
             state("serde round trip", |c: &Crl| serde_round_trip(c)),
         ],
     }
+}
+
+/// The signature algorithm of an object as what it *means*: the algorithm it
+/// signs with and what each of its encoders writes. The value also carries
+/// an annotation (were NULL parameters present where it was decoded from?)
+/// that takes part in `==` and `Debug`; the library documents that whatever
+/// the annotation says, the identifiers it writes carry NULL parameters.
+fn sigalg(alg: &rpki::crypto::signature::RpkiSignatureAlgorithm) -> String {
+    use rpki::crypto::signature::SignatureAlgorithm;
+    format!(
+        "{:?} x509_encode={} SignatureAlgorithm::x509_encode={} cms_encode={}",
+        alg.signing_algorithm(),
+        der(rpki::crypto::signature::RpkiSignatureAlgorithm::x509_encode(*alg)),
+        der(SignatureAlgorithm::x509_encode(alg)),
+        der(alg.cms_encode())
+    )
+}
+
+/// The CRL table for values built from *decoded* inputs: the rows that
+/// render the algorithm value's annotation (`Debug`, `==` of `SignedData`)
+/// are replaced by rows over what the value means and writes.
+pub fn crl_table_semantic(probes: Vec<Serial>) -> Table<Crl> {
+    let mut t = crl_table(probes);
+    t.rows.retain(|(name, _)| name != "signature" && name != "signed_data.signature");
+    t.cross.retain(|(name, _)| name != "signed_data ==");
+    t.rows.push(row("signature (meaning)", |c: &Crl| sigalg(&c.signature())));
+    t.rows.push(row("signed_data.signature (meaning)", |c: &Crl| {
+        format!("{} {}", sigalg(c.signed_data().signature().algorithm()), hex(c.signed_data().signature().value()))
+    }));
+    t.cross.push(cross("signed_data: data and signature value ==", |a: &Crl, b: &Crl| {
+        a.signed_data().data().as_slice() == b.signed_data().data().as_slice() && a.signed_data().signature().value() == b.signed_data().signature().value()
+    }));
+    t
 }
 
 #[allow(deprecated)]
